@@ -13,7 +13,11 @@
      at ties (float evaluation of an exact tie may land on either side);
    - np.interp(x, xp, arange(n)) with left/right fill, exact hit and linear
      interpolation; the binary search is the linear scan NumPy itself uses for
-     short arrays (j = number of leading xp[1..] that are <= x);
+     short arrays (j = number of leading xp[1..] that are <= x).  Where zero
+     weights repeat a value of xp and x hits it exactly, np.interp jumps from
+     the first to the last repeated position; a float x may fall on either
+     side, so the scan's comparison is the second numerics parameter
+     ([strict] = false is NumPy's exact behaviour, true takes the first);
    - np.linspace(a, b, k) = a + j * ((b - a) / (k - 1)).
    Errors (raise) are [None]. *)
 From Coq Require Export Qround ZArith.
@@ -43,8 +47,11 @@ Definition clip_hi_step (cmax : option Q) (ps : list (Q * Q)) : list (Q * Q) :=
   match cmax with None => ps | Some hi => map (fun p => (qmin (fst p) hi, snd p)) ps ++ [(hi, 0)] end.
 Definition prep (vs : list Q) (ws : option (list Q)) (cmin cmax dv : option Q) : list (Q * Q) :=
   clip_hi_step cmax (clip_lo_step cmin (remove_default dv (pairs vs ws))).
-(* the clipped data (with the appended clip bounds), weights dropped *)
-Definition clipped (vs : list Q) (cmin cmax dv : option Q) : list Q := map fst (prep vs None cmin cmax dv).
+(* the same on the values alone: the clipped data with the appended clip bounds *)
+Definition clipped (vs : list Q) (cmin cmax dv : option Q) : list Q :=
+  let v0 := match dv with None => vs | Some d => filter (fun v => negb (Qeq_bool v d)) vs end in
+  let v1 := match cmin with None => v0 | Some lo => map (fun v => qmax v lo) v0 ++ [lo] end in
+  match cmax with None => v1 | Some hi => map (fun v => qmin v hi) v1 ++ [hi] end.
 
 (* ---------- sort + de-duplication with weight accumulation ---------- *)
 Record grp := mkg { gv : Q; gw : Q; gc : nat }.
@@ -57,6 +64,10 @@ Fixpoint ins (v w : Q) (l : list grp) : list grp :=
   end.
 Definition sort_unique (ps : list (Q * Q)) : list grp :=
   fold_right (fun p acc => ins (fst p) (snd p) acc) [] ps.
+
+(* np.unique(values): the sorted distinct clipped values *)
+Definition distinct_values (vs : list Q) (ws : option (list Q)) (cmin cmax dv : option Q) : list Q :=
+  map gv (sort_unique (prep vs ws cmin cmax dv)).
 
 Inductive reduction := RMean | RSum | ROther.
 Definition reduce (red : reduction) (g : grp) : Q :=
@@ -79,24 +90,27 @@ Fixpoint wq_from (acc S : Q) (ws : list Q) : list Q :=
   end.
 Definition wquantiles (ws : list Q) : list Q := wq_from 0 (qsum ws) ws.
 
-Fixpoint count_le (x : Q) (l : list Q) : nat :=
-  match l with [] => O | y :: r => if qle y x then S (count_le x r) else O end.
+Fixpoint count_le (strict : bool) (x : Q) (l : list Q) : nat :=
+  match l with
+  | [] => O
+  | y :: r => if (if strict then qlt y x else qle y x) then S (count_le strict x r) else O
+  end.
 (* np.interp(x, xp, fp = arange(len xp)) *)
-Definition interp_idx (x : Q) (xp : list Q) : Q :=
+Definition interp_idx (strict : bool) (x : Q) (xp : list Q) : Q :=
   match xp with
   | [] => 0
   | x0 :: rest =>
     let n := length xp in
     if qlt x x0 then 0
     else if qlt (last xp 0) x then nq (n - 1)
-    else let j := count_le x rest in
+    else let j := count_le strict x rest in
          if (j =? n - 1)%nat then nq j
          else let xj := nth j xp 0 in
               if Qeq_bool xj x then nq j
               else Qred (nq j + (x - xj) / (nth (S j) xp 0 - xj))
   end.
-Definition wq_raw (ws : list Q) (k : nat) : list Q :=
-  let xp := wquantiles ws in map (fun q => interp_idx q xp) (quantiles k).
+Definition wq_raw (strict : bool) (ws : list Q) (k : nat) : list Q :=
+  let xp := wquantiles ws in map (fun q => interp_idx strict q xp) (quantiles k).
 (* quantiles_idx[quantiles <= 0] = 0 ; quantiles_idx[quantiles >= 1] = n - 1 *)
 Definition pin (n : nat) (q : Q) (i : Z) : Z :=
   if qle 1 q then (Z.of_nat n - 1)%Z else if qle q 0 then 0%Z else i.
@@ -139,11 +153,11 @@ Fixpoint zinsert (x : Z) (l : list Z) : list Z :=
   match l with [] => [x] | y :: r => if (x <=? y)%Z then x :: l else y :: zinsert x r end.
 Definition zsort (l : list Z) : list Z := fold_right zinsert [] l.
 
-Definition weighted_idx (rnd : nat -> Q -> Z) (n : nat) (ws : list Q) (k : nat) : list Z :=
-  zsort (repair n (pin_all n k (round_all rnd (wq_raw ws k)))).
-Definition weighted_quantile (rnd : nat -> Q -> Z) (sv ws : list Q) (k : nat) : option (list Q) :=
+Definition weighted_idx (rnd : nat -> Q -> Z) (strict : bool) (n : nat) (ws : list Q) (k : nat) : list Z :=
+  zsort (repair n (pin_all n k (round_all rnd (wq_raw strict ws k)))).
+Definition weighted_quantile (rnd : nat -> Q -> Z) (strict : bool) (sv ws : list Q) (k : nat) : option (list Q) :=
   if (length sv <? k)%nat then None
-  else Some (take sv (weighted_idx rnd (length sv) ws k)).
+  else Some (take sv (weighted_idx rnd strict (length sv) ws k)).
 
 (* ---------- uniform ---------- *)
 Definition linspace (a b : Q) (k : nat) : list Q :=
@@ -152,7 +166,7 @@ Definition linspace (a b : Q) (k : nat) : list Q :=
 (* ---------- compute_keypoints ---------- *)
 Inductive kmode := Quantiles | Uniform | MOther.
 
-Definition finish (rnd : nat -> Q -> Z) (gs : list grp) (k : nat) (mode : kmode)
+Definition finish (rnd : nat -> Q -> Z) (strict : bool) (gs : list grp) (k : nat) (mode : kmode)
            (weighted : bool) (red : reduction) : option (list Q) :=
   let sv := map gv gs in
   match weighted, red with
@@ -163,7 +177,9 @@ Definition finish (rnd : nat -> Q -> Z) (gs : list grp) (k : nat) (mode : kmode)
       if (length sv <? k)%nat then Some sv
       else if weighted then
              let rw := map (reduce red) gs in
-             if Qeq_bool (qsum rw) 0 then None else weighted_quantile rnd sv rw k
+             (* zero weight sum: every interpolated index is NaN; only the pinned
+                positions (all of them iff k <= 2) survive, else IndexError *)
+             if Qeq_bool (qsum rw) 0 && (2 <? k)%nat then None else weighted_quantile rnd strict sv rw k
            else Some (nearest_quantile rnd sv k)
     | Uniform => match sv with [] => None | a :: _ => Some (linspace a (last sv a) k) end
     | MOther => None
@@ -172,16 +188,16 @@ Definition finish (rnd : nat -> Q -> Z) (gs : list grp) (k : nat) (mode : kmode)
 
 Definition is_some {A} (o : option A) : bool := match o with Some _ => true | None => false end.
 
-Definition compute_keypoints (rnd : nat -> Q -> Z) (vs : list Q) (k : nat) (mode : kmode)
+Definition compute_keypoints (rnd : nat -> Q -> Z) (strict : bool) (vs : list Q) (k : nat) (mode : kmode)
            (cmin cmax dv : option Q) (ws : option (list Q)) (red : reduction) : option (list Q) :=
-  finish rnd (sort_unique (prep vs ws cmin cmax dv)) k mode (is_some ws) red.
+  finish rnd strict (sort_unique (prep vs ws cmin cmax dv)) k mode (is_some ws) red.
 
 (* pre-rounding quantile indices of a call (for the tie handling of the
    correspondence check); [] when no rounding happens *)
 Definition raw_indices (gs : list grp) (k : nat) (mode : kmode) (weighted : bool) (red : reduction) : list Q :=
   match mode with
   | Quantiles => if (length gs <? k)%nat then []
-                 else if weighted then wq_raw (map (reduce red) gs) k else nq_raw (length gs) k
+                 else if weighted then wq_raw false (map (reduce red) gs) k else nq_raw (length gs) k
   | _ => []
   end.
 
@@ -208,11 +224,11 @@ Fixpoint fc_by_name (fcs : list feature_config) (name : nat) : feature_config :=
   end.
 (* result of one feature: skipped (categorical), error, or keypoints *)
 Inductive fk_result := FSkip | FError | FKeypoints (kps : list Q).
-Definition feature_keypoints_one (rnd : nat -> Q -> Z) (fc : feature_config) (vs : list Q)
+Definition feature_keypoints_one (rnd : nat -> Q -> Z) (strict : bool) (fc : feature_config) (vs : list Q)
            (ws : option (list Q)) (red : reduction) : fk_result :=
   if (fc_num_buckets fc =? 0)%nat then
     match fc_spec fc with
-    | KMode m => match compute_keypoints rnd vs (fc_num_keypoints fc) m (fc_clip_min fc) (fc_clip_max fc)
+    | KMode m => match compute_keypoints rnd strict vs (fc_num_keypoints fc) m (fc_clip_min fc) (fc_clip_max fc)
                                            (fc_default fc) ws red with
                  | Some kps => FKeypoints kps
                  | None => FError
@@ -220,9 +236,9 @@ Definition feature_keypoints_one (rnd : nat -> Q -> Z) (fc : feature_config) (vs
     | KGiven kps => FKeypoints kps
     end
   else FSkip.
-Definition compute_feature_keypoints (rnd : nat -> Q -> Z) (fcs : list feature_config)
+Definition compute_feature_keypoints (rnd : nat -> Q -> Z) (strict : bool) (fcs : list feature_config)
            (features : list (nat * list Q)) (ws : option (list Q)) (red : reduction) : list (nat * fk_result) :=
-  map (fun f => (fst f, feature_keypoints_one rnd (fc_by_name fcs (fst f)) (snd f) ws red)) features.
+  map (fun f => (fst f, feature_keypoints_one rnd strict (fc_by_name fcs (fst f)) (snd f) ws red)) features.
 (* set_feature_keypoints: configs found by name are updated; a missing config
    is appended (as a default config carrying the keypoints) iff add_missing *)
 Fixpoint has_fc (fcs : list feature_config) (name : nat) : bool :=
@@ -243,16 +259,23 @@ Definition set_feature_keypoints (add_missing : bool) (fcs : list feature_config
            (fk : list (nat * list Q)) : list feature_config :=
   fold_left (fun acc f => set_feature_keypoints_one add_missing acc (fst f) (snd f)) fk fcs.
 
-(* compute_label_keypoints for numeric labels: logits -> linspace(-2, 2, k) *)
+(* compute_label_keypoints.  Labels are numeric, or strings (given by an
+   identifier per example): string labels become arange(number of distinct
+   labels) and the weights are dropped.  logits -> linspace(-2, 2, k). *)
+Inductive labels_in := LNum (l : list Q) | LStr (ids : list nat).
 Record label_config := mklc { lc_spec : kp_spec; lc_num_keypoints : nat;
                               lc_output_min : option Q; lc_output_max : option Q }.
-Definition compute_label_keypoints (rnd : nat -> Q -> Z) (lc : label_config) (labels : list Q)
+Definition label_values (labels : labels_in) : list Q :=
+  match labels with LNum l => l | LStr ids => map nq (seq 0 (length (dedup ids []))) end.
+Definition label_weights (labels : labels_in) (ws : option (list Q)) : option (list Q) :=
+  match labels with LNum _ => ws | LStr _ => None end.
+Definition compute_label_keypoints (rnd : nat -> Q -> Z) (strict : bool) (lc : label_config) (labels : labels_in)
            (logits_output : bool) (ws : option (list Q)) (red : reduction) : fk_result :=
   match lc_spec lc with
   | KMode m =>
     if logits_output then FKeypoints (linspace (-2#1) (2#1) (lc_num_keypoints lc))
-    else match compute_keypoints rnd labels (lc_num_keypoints lc) m (lc_output_min lc) (lc_output_max lc)
-                                 None ws red with
+    else match compute_keypoints rnd strict (label_values labels) (lc_num_keypoints lc) m
+                                 (lc_output_min lc) (lc_output_max lc) None (label_weights labels ws) red with
          | Some kps => FKeypoints kps
          | None => FError
          end
